@@ -54,6 +54,12 @@ def run(chk):
         chk.call(r7_r8_preparation, chk, f)
     rl = prog.func("molli.pipeline.runner:run_local")
     c17.r4_recorded(chk, rl, "C18.R4")
+    # a cached output is reused when its recorded exit code is 0: the runner must reach that code only when every command
+    # succeeded *and* every requested file came back (C17.R3, the same clause under this property's name)
+    chk.borrow("C18.R4", c17.r3_exit, chk, rl)
+    # "a cached output from a different input ... is not reused" rests on the hash: what is hashed is what is dumped is what is
+    # loaded, every field of the input included (C17.R5 under this property's name)
+    chk.borrow("C18.R9", c17.r5_job_codec, chk)
 
 
 # ---------------------------------------------------------------------------
